@@ -95,6 +95,49 @@ def gen_cases(tier, seed):
         runs = [(iso, o2), (iso, o), (iso, o2), (iso, o)]
         hist.append({"kind": "history", "history_kind": "override_then_plain", "runs": [{"iso": i, "opts": copy.deepcopy(x)} for i, x in runs], "share_opts": False,
                      "id": "override#%d/%s" % (k, key)})
+    # the same country run with one option family flipped, then as it was: anything remembered per country (rather than per
+    # run) from the first run shows in the second.  Every option family is flipped in some history of the tier.
+    fams = workload.families("country")
+    keys = sorted(fams)
+    rnd.shuffle(keys)
+    nflip = 8 if tier == "quick" else 4 * len(keys)
+    isos_all = workload.all_isos()
+    for k in range(nflip):
+        key = keys[k % len(keys)]
+        iso = rnd.choice(["ARG", "CHL", "VNM", "IDN", "FRA", "ETH", "JPN", "ZAF", "KOR", "NZL"] + rnd.sample(isos_all, 4))
+        o = workload.base_country(scenario=rnd.choice(["no_resilient_foods", "all_resilient_foods"]), NMONTHS=rnd.choice([120, 72]))
+        if key == "seasonality" or rnd.random() < 0.5:
+            o["seasonality"] = "country"
+        alt = [v for v in fams[key] if v != o.get(key)]
+        o2 = dict(o)
+        o2[key] = rnd.choice(alt)
+        key2 = None
+        if tier == "quick" or rnd.random() < 0.5:
+            # quick: two families per history so that all of them are flipped within the tier
+            key2 = keys[(k + nflip) % len(keys)]
+            if key2 != key:
+                o2[key2] = rnd.choice([v for v in fams[key2] if v != o.get(key2)])
+        runs = [(iso, o2), (iso, o), (iso, o2)]
+        hist.append({"kind": "history", "history_kind": "same_country_option_flip", "runs": [{"iso": i, "opts": copy.deepcopy(x)} for i, x in runs], "share_opts": False,
+                     "flipped": [key] + ([key2] if key2 and key2 != key else []), "id": "flip#%d/%s%s" % (k, key, "+" + key2 if key2 and key2 != key else "")})
+    # ... and with every family flipped at once (two different complements), over a rotating list of countries
+    rot = ["ARG", "CHL", "VNM", "IDN", "FRA", "ETH", "JPN", "ZAF", "NGA", "NZL", "IND", "CAN"]
+    rnd.shuffle(rot)
+    for k in range(8 if tier == "quick" else 60):
+        iso = rot[k % len(rot)] if k < 2 * len(rot) else rnd.choice(isos_all)
+        o = workload.base_country(scenario=rnd.choice(["no_resilient_foods", "all_resilient_foods"]), seasonality="country")
+        comps = []
+        for _ in range(2):
+            o2 = dict(o)
+            for key in keys:
+                if key == "NMONTHS" and rnd.random() < 0.5:
+                    continue
+                alt = [v for v in fams[key] if v != o.get(key) and v != "all_crops_die_instantly"]
+                o2[key] = rnd.choice(alt)
+            comps.append(o2)
+        runs = [(iso, comps[0]), (iso, o), (iso, comps[1]), (iso, o)]
+        hist.append({"kind": "history", "history_kind": "same_country_all_options_flipped", "runs": [{"iso": i, "opts": copy.deepcopy(x)} for i, x in runs], "share_opts": False,
+                     "id": "flipall#%d/%s" % (k, iso)})
     isos = workload.all_isos()
     for k in range(4 if tier == "quick" else 24):
         o = rnd.choice(good)[1]
